@@ -6,6 +6,8 @@ import (
 	"encoding/binary"
 	"errors"
 	"fmt"
+	"os"
+	"strconv"
 	"sync"
 	"time"
 
@@ -94,9 +96,11 @@ type Outcome struct {
 	// empty (GetIDs: non-nil result without ids, no error) | nil (GetIDs: nil result, no error) |
 	// discard (SubmitWithOptions: record what arrived, hand out one id per blob, store nothing and leave the
 	// height alone; used by the harness to ask the client what it would send without disturbing the world)
-	Kind   string   `json:"kind"`
-	Prefix int      `json:"prefix,omitempty"`
-	Err    *ErrSpec `json:"err,omitempty"`
+	// slow (SubmitWithOptions: behave like an honest DA, but answer only after DelayMs of real time)
+	Kind    string   `json:"kind"`
+	Prefix  int      `json:"prefix,omitempty"`
+	Err     *ErrSpec `json:"err,omitempty"`
+	DelayMs int      `json:"delay_ms,omitempty"`
 }
 
 func (o Outcome) String() string {
@@ -105,6 +109,8 @@ func (o Outcome) String() string {
 		return "err(" + o.Err.String() + ")"
 	case "prefix":
 		return fmt.Sprintf("prefix%d", o.Prefix)
+	case "slow":
+		return fmt.Sprintf("slow%dms", o.DelayMs)
 	case "":
 		return "real"
 	}
@@ -307,11 +313,40 @@ func (b *backing) SubmitWithOptions(ctx context.Context, blobs []coreda.Blob, ga
 		rec.Done = false
 		return nil, b.blockUntilDone(ctx, rec) // unlocks
 	}
+	idx := -1
+	var waitErr error
+	if o.Kind == "slow" {
+		// an honest DA layer that answers late (say, once the blob transaction is included): the call is on record as
+		// running while it waits; a caller that gives up in the meantime gets its own context error and nothing is stored
+		rec.Done = false
+		b.log = append(b.log, rec)
+		idx = len(b.log) - 1
+		b.mu.Unlock()
+		t := time.NewTimer(b.slowDelay(o))
+		select {
+		case <-t.C:
+		case <-ctx.Done():
+			t.Stop()
+			waitErr = ctx.Err()
+		}
+		b.mu.Lock()
+		rec.Done = true
+	}
 	defer b.mu.Unlock()
+	record := func() {
+		if idx >= 0 {
+			b.log[idx] = rec
+		} else {
+			b.log = append(b.log, rec)
+		}
+	}
 	fail := func(err error) ([]coreda.ID, error) {
 		rec.Err = err
-		b.log = append(b.log, rec)
+		record()
 		return nil, err
+	}
+	if waitErr != nil {
+		return fail(waitErr)
 	}
 	if err := ctx.Err(); err != nil {
 		return fail(err)
@@ -325,7 +360,7 @@ func (b *backing) SubmitWithOptions(ctx context.Context, blobs []coreda.Blob, ga
 			ids[i] = binary.LittleEndian.AppendUint64(binary.LittleEndian.AppendUint64(nil, 0), uint64(i))
 		}
 		rec.IDs = ids
-		b.log = append(b.log, rec)
+		record()
 		return ids, nil
 	}
 	n := len(blobs)
@@ -366,8 +401,16 @@ func (b *backing) SubmitWithOptions(ctx context.Context, blobs []coreda.Blob, ga
 	}
 	rec.Stored = n
 	rec.IDs = ids
-	b.log = append(b.log, rec)
+	record()
 	return ids, nil
+}
+
+// slowDelay is how long a "slow" answer takes (development aid: C16_SLOW_MS overrides the scripted time).
+func (b *backing) slowDelay(o Outcome) time.Duration {
+	if v, err := strconv.Atoi(os.Getenv("C16_SLOW_MS")); err == nil && v > 0 {
+		return time.Duration(v) * time.Millisecond
+	}
+	return time.Duration(o.DelayMs) * time.Millisecond
 }
 
 func (b *backing) Submit(ctx context.Context, blobs []coreda.Blob, gasPrice float64, ns []byte) ([]coreda.ID, error) {
